@@ -311,6 +311,7 @@ pub fn run_case(o: &mut Obs, spec: &Spec, ops: &[ROp], path: usize, fin: Final, 
             }
         }
         let before = consumed;
+        let lim_before = root.limit_opt();
         let st = match path {
             0 => apply(&mut *root, op, &mut rest, &mut consumed),
             1 => apply(&mut root, op, &mut rest, &mut consumed),
@@ -326,6 +327,21 @@ pub fn run_case(o: &mut Obs, spec: &Spec, ops: &[ROp], path: usize, fin: Final, 
             }
             Step::EndedByExpectedPanic => {
                 o.inc("expected_panics");
+                // a refused request may leave a tree half-consumed (Chain::advance drains `a` first), but a
+                // Take never draws more than its limit out of its inner buffer (C12)
+                if let (Spec::Take(_, _, inner), Some(lb)) = (spec, lim_before) {
+                    if !has_endless(spec) {
+                        let xl = inner.model().len();
+                        for (r1, _) in root.peek_children() {
+                            let taken = xl - r1.min(xl);
+                            if taken > consumed.saturating_add(lb) {
+                                report(o, spec, "take-overdrawn-by-refused-request", case, &format!("after the refused {op:?} the inner of the Take has lost {taken} bytes although only {consumed} went through and the limit was {lb}; ops={ops:?}"), true);
+                                return crate::rng::fnv_u64(dg, 9);
+                            }
+                        }
+                        o.inc("refused_take_checks");
+                    }
+                }
                 return crate::rng::fnv_u64(dg, 2);
             }
             Step::Bad(sig, d) => {
@@ -448,13 +464,20 @@ pub fn gen_leaf(r: &mut Rng, d: Vec<u8>) -> Spec {
             if n == 0 && r.chance(1, 2) {
                 // position beyond the end: the cursor is empty (saturating arithmetic)
                 let v = data(r.below(4), 98);
-                let p = v.len() + 1 + r.below(3);
+                let p = (v.len() + 1 + r.below(3)) as u64;
+                if r.chance(1, 3) {
+                    // far beyond the end: u64::MAX, or 2^32 + k with k inside the data (a position whose
+                    // low 32 bits alone would look valid on a 32-bit target)
+                    let v = data(2 + r.below(6), 97);
+                    let p = if r.chance(1, 3) { u64::MAX - r.below(2) as u64 } else { (1u64 << 32) * (1 + r.below(3) as u64) + r.below(v.len() + 1) as u64 };
+                    return Spec::Cursor(p, v);
+                }
                 return Spec::Cursor(p, v);
             }
             let p = r.below(4);
             let mut v = data(p, 99);
             v.extend(d);
-            Spec::Cursor(p, v)
+            Spec::Cursor(p as u64, v)
         }
         4 => Spec::Deque(r.below(n + 1), d),
         _ => {
@@ -518,10 +541,22 @@ pub fn gen_op(r: &mut Rng, rest: usize, root_is_take: bool) -> ROp {
         4 if r.chance(1, 3) => rest + 1 + r.below(3),
         _ => r.below(rest + 1),
     };
+    // counts near the top of usize: position + count arithmetic inside the implementor must not wrap
+    let huge = if r.chance(1, 24) {
+        Some(match r.below(4) {
+            0 => usize::MAX,
+            1 => usize::MAX - r.below(40),
+            2 => usize::MAX / 2 + 1 + r.below(3),
+            _ => (usize::MAX >> 1) - r.below(3),
+        })
+    } else {
+        None
+    };
     match r.below(if root_is_take { 10 } else { 9 }) {
         0 => ROp::Rem,
         1 => ROp::Chunk,
-        2 | 3 => ROp::Adv(k),
+        2 | 3 => ROp::Adv(huge.unwrap_or(k)),
+        6 if huge.is_some() => ROp::CopyBytes(huge.unwrap()),
         4 => ROp::Vect(*r.pick(&[0usize, 1, 2, 3, 5, 17, 32])),
         5 if r.chance(1, 2) => ROp::TryCopySlice(k),
         5 => ROp::CopySlice(k),
